@@ -679,6 +679,8 @@ return (labels, metric_value)
                '    (non-empty) expression — `labelFailedText` if `str`/`eval` raise an Exception — else its static value;\n'
                '    labels are stored in a dict by key. -/\n'
                f'def metricValueDefault : Int := ({default} : Int)\n'
+               '/-- is the default written as an int literal (what reaches the processor is then an `int`, not a `float`) -/\n'
+               f'def metricValueDefaultIsInt : Bool := {"true" if type(first.value.value) is int else "false"}\n'
                f'def labelFailedText : String := {lean_str(failed_txt)}\n')
     return '\n'.join(out)
 
@@ -707,6 +709,7 @@ def generate():
              '    `isExc` = the result object is a BaseException instance (always so when `failed`), `ty` = `type(result).__name__`,\n'
              '    `text` = `str(result)`, `val` = the value when it is of a kind `float()` accepts. -/\n'
              'structure Outcome where\n  failed : Bool\n  isExc : Bool\n  ty : String\n  text : String\n  val : PyVal\n'
+             '  strRaises : Bool      -- `str(result)` raises an Exception (then `text` means nothing)\n'
              'deriving DecidableEq, Repr\n',
              part_str2bool(), part_can_trigger(), part_evaluate(), part_eval_sites(), part_overrides(), part_eval_watch(),
              _optional(part_log, 'log action facts (C16)', 'logExtractionFailed'),
